@@ -330,6 +330,18 @@ fn main() {
             println!("selfcheck: {} (check, seed) pairs x 3 executions (workers 1 / 16 / 5, separate OS processes), {} mismatches", jobs.len(), bad);
             if bad > 0 { 2 } else { 0 }
         }
+        "c04-child" => {
+            let k: usize = args[2].parse().unwrap();
+            let n: usize = args[3].parse().unwrap();
+            let resume: i64 = args[4].parse().unwrap();
+            warm_builtins(prng::mix(&[opts.seed, prng::purpose("warm")]));
+            props::c04::child(&opts, k, n, resume, &args[5])
+        }
+        "c04-exec" => {
+            let file: serde_json::Value = serde_json::from_slice(&std::fs::read(&args[2]).unwrap()).unwrap();
+            warm_builtins(1);
+            props::c04::exec_one(&file)
+        }
         "c13-child" => {
             let warm: u64 = args[2].parse().unwrap();
             let idx: Vec<usize> = args[3].split(',').filter_map(|x| x.parse().ok()).collect();
